@@ -2,6 +2,10 @@
 """Regenerates MANIFEST.json from the table below (run after adding a check)."""
 import json, subprocess
 CHECKS = {
+ "C17": dict(level="exploration", ref="2/C17",
+   text="Generated sequences of append/force/reopen/truncate/read on a bare log file (through the `verif` facade) are compared after every force, reopen and read against a list model of the records appended since the last truncation: same count, order, strictly increasing LSNs, identical ids, kinds and payload bytes, nothing extra; record sizes are aimed at block boundaries. Sampling: held on the generated sequences only.",
+   note="Trusted: the list model in harness/src/props/c17.rs; LSNs assigned like Pager::push_to_log; drop of the handle counts as a force; sizes within two block headers of the advertised maximum may be refused.",
+   technique="property-based testing (proptest operation sequences + interpreter) against a reference model, with shrinking"),
  "C20": dict(level="exploration", ref="2/C20",
    text="Generated Request/Response values of every variant round-trip through to_bytes/from_bytes and the length-prefixed framing (short reads, back-to-back frames); random bytes and mutated valid frames are fed to every decoder and the frame reader with a no-panic / no-hang / bounded-allocation oracle. Sampling, not proof: held on the generated cases only.",
    note="Trusted: the harness mirror types and comparator; VmPeak-based allocation bound (64*len + 64 MiB), RLIMIT_AS 8 GiB; build profile opt-level 2 with overflow checks and debug assertions.",
